@@ -433,7 +433,7 @@ def _jobs_for(prop, tier):
     if prop == 'C07':
         return [j for j in jobs_option_below(tier) if j[1][3] == 'combinations'] + jobs_combinations(tier) + jobs_axis0(tier, 'combinations')
     if prop == 'C03':
-        return jobs_c03(tier) + jobs_option_reduce(tier) + jobs_axis(tier, ('reduce',))
+        return jobs_c03(tier) + jobs_option_reduce(tier) + jobs_axis(tier, ('reduce',)) + jobs_reduce_nonlocal(tier)
     return {'C02': jobs_c02, 'C03': jobs_c03, 'C04': jobs_c04, 'C06': (lambda t: jobs_c06(t) + jobs_axis(t, ('sort', 'argsort')) + jobs_numpy_sort(t)), 'C08': (lambda t: jobs_c08(t) + jobs_numpy(t) + jobs_union(t) + jobs_reverse_merge(t) + jobs_record_merge(t) + jobs_list_merge(t) + [j for j in jobs_record_named(t) if j[0] is h_record_mergemany_named] + jobs_merge_union(t) + jobs_union_ops(t)), 'C17': jobs_c17, 'C12': jobs_numpy, 'C10': (lambda t: jobs_c10(t) + [j for j in jobs_record_named(t) if j[0] is h_record_field_key] + jobs_project(t) + [j for j in jobs_option_below(t) if j[1][3] == 'getitem_field'] + jobs_record_setitem(t)), 'C05': jobs_c05, 'C09': jobs_c09}.get(prop, lambda t: [])(tier)
 
 
@@ -4292,3 +4292,171 @@ def jobs_union_ops(tier):
             js.append((h_union_ops, (tg, 'project', 0, w), 1800))
             js.append((h_union_ops, (tg, 'project', 1, w), 1800))
     return js
+
+
+# ------------------------------------------------------------------------------------------------ C03: ListOffsetArray64::reduce_next, non-local branch
+@guard
+def h_reduce_nonlocal(lens, parents, positions):
+    """ListOffsetArray64::reduce_next for a reduction *at* this list level's parent axis (the 'non-local' branch, e.g. axis=0 of a list of lists): the
+    elements that agree on everything but the reduced coordinate are those at the same position j of the lists of one outer group g.  Decided:
+    the content is handed every covered element exactly once; two handed elements carry the same group number exactly when they share (g, j);
+    starts[group] is where that group begins in what is handed over; the answer has, for every outer group, one result per position up to its
+    longest list, in position order; for position reducers the shift handed on with an element is the number of earlier lists of its group that
+    are too short to reach position j (so that position - start + shift is the list's index in its group)"""
+    lens, parents = list(lens), list(parents)
+    n, total = len(lens), sum(lens)
+    outlength = (max(parents) + 1) if parents else 0
+    nc = NodeCtx(['LOA', 'LA', 'RA', 'IDX', 'CNT', 'UTL', 'KD', 'IDS', 'NA'], [], unwind=max(14, 2 * total + 2 * n + outlength * (max(lens + [0]) + 1) + 10))
+    RED = z3.Function('RED', z3.BitVecSort(64), z3.BitVecSort(64))
+    seen = []
+
+    def s_reduce_next(eng, fr, ins, st, name, argv):
+        sret, selfp, reducer, negaxis, starts, shifts, parents_, outl, mask, keepdims = argv
+        nm, info = nc.content_info(selfp, st, eng)
+        seen.append(dict(pc=st.pc, info=info, negaxis=negaxis, starts=nc.index_terms(st.mem, starts, 'starts')[0], parents=nc.index_terms(st.mem, parents_, 'parents')[0],
+                         shifts=nc.index_terms(st.mem, shifts, 'shifts')[0], outlength=outl, mask=mask, keepdims=keepdims))
+        k = z3.BitVec('k!', 64)
+        nc._ret(st, sret, nc.fresh_content(eng, st, outl, z3.Lambda([k], RED(k)), derived='reduced'))
+        return None
+    nc.m.eng.stubs['vf$slot%d' % nc.slot('11reduce_nextERKNS_7ReducerEl')] = s_reduce_next
+    nc.m.eng.stubs['vf$slot%d' % nc.slot('12branch_depthEv')] = lambda eng, fr, ins, st, name, argv: [z3.BitVecVal(0, 8), BV(1)]
+    nc.m.eng.stubs['vf$slot%d' % nc.slot('20dimension_optiontypeEv')] = lambda eng, fr, ins, st, name, argv: z3.BitVecVal(0, 1)
+    this, lists, offs = build_listoffset64(nc, lens)
+
+    def index64(name, vals):
+        arr = z3.K(z3.BitVecSort(64), BV(0))
+        for i, v in enumerate(vals):
+            arr = z3.Store(arr, BV(i), BV(v))
+        d = nc.m.array(name + '_data', ('i', 64), max(1, len(vals)), const=True, arr=arr)
+        cells = {}
+        nc.index_cells(cells, 0, d, BV(0), BV(len(vals)))
+        return nc.m.record(name, cells, const=True)
+    first_of = {g: min(i for i, p in enumerate(parents) if p == g) for g in set(parents)}
+    pidx = index64('parents', parents)
+    starts = index64('starts', [first_of.get(g, 0) for g in range(outlength)])
+    shifts = index64('shifts', [])
+    # the reducer: only returns_positions() is asked of it here
+    from .cpp01 import vtable_slots
+    rslots, rn = vtable_slots(module_of('src/libawkward/Reducer.cpp'), 'N7awkward10ReducerSumE')
+    rp_slot = [k for s_, k in rslots.items() if 'returns_positions' in s_][0]
+    nc.m.record('redvt', {8 * j: (Ptr(('func', 'vf$red%d' % j), 0), 8) for j in range(rn)}, const=True)
+    nc.m.eng.stubs['vf$red%d' % rp_slot] = lambda eng, fr, ins, st, name, argv: z3.BitVecVal(1 if positions else 0, 1)
+    reducer = nc.m.record('reducer', {0: (Ptr('redvt', 0), 8)}, const=True)
+    nc.m.record('ret', {})
+    fn = '_ZNK7awkward17ListOffsetArrayOfIlE11reduce_nextERKNS_7ReducerElRKNS_7IndexOfIlEES8_S8_lbb'
+    # the list level is one above the leaf: branch_depth() of this node is (false, 2), so negaxis = 2 selects the non-local branch
+    out = nc.m.call(fn, [Ptr('ret', 0), this, reducer, BV(2), starts, shifts, pidx, BV(outlength), z3.BitVecVal(0, 1), z3.BitVecVal(0, 1)])
+    obls = [('reduce_next does not raise', out.raised),
+            ('the content is asked (on every path)', z3.Not(z3.Or([ob['pc'] for ob in seen] + [z3.BoolVal(False)])))]
+    maxlen = {g: max([lens[i] for i, p in enumerate(parents) if p == g] + [0]) for g in range(outlength)}
+    for ob in seen:
+        info, g_ = ob['info'], ob['pc']
+        G = lambda c: z3.And(g_, c)
+        hl = nodeh.concrete(info['length'], 'length of the content handed over', under=g_)
+        obls.append(('the content handed over holds every covered element once', G(z3.BoolVal(hl != total))))
+        atoms = [z3.simplify(z3.Select(info['atoms'], BV(k))) for k in range(hl)]
+        pars = ob['parents']
+        if len(pars) != hl:
+            obls.append(('one group number per handed element', g_)); continue
+        # where element (i, j) went: by atom value offs[i] + j (atoms are distinct positions of the original content)
+        key_of = []          # per handed k: ite-selected (outer group, position j, list index i) as z3 terms
+        for k in range(hl):
+            gi, ji, ii, found = BV(-1), BV(-1), BV(-1), z3.BoolVal(False)
+            for i in range(n):
+                for j in range(lens[i]):
+                    hit = atoms[k] == offs[i] + j
+                    gi, ji, ii = z3.If(hit, BV(parents[i]), gi), z3.If(hit, BV(j), ji), z3.If(hit, BV(i), ii)
+                    found = z3.Or(found, hit)
+            key_of.append((z3.simplify(gi), z3.simplify(ji), z3.simplify(ii)))
+            obls.append(('handed element %d is a covered element' % k, G(z3.Not(found))))
+        for a in range(hl):
+            for b in range(a + 1, hl):
+                obls.append(('handed elements %d and %d are different elements' % (a, b), G(atoms[a] == atoms[b])))
+                same_key = z3.And(key_of[a][0] == key_of[b][0], key_of[a][1] == key_of[b][1])
+                obls.append(('elements %d and %d share a group number exactly when they share (outer group, position)' % (a, b), G((pars[a] == pars[b]) != same_key)))
+        for k in range(hl):
+            obls.append(('group numbers fit the number of groups announced', G(z3.Or(pars[k] < 0, pars[k] >= ob['outlength']))))
+            if len(ob['starts']) and True:
+                # starts[group of k] is the first handed position of that group
+                st_k = ob['starts'][0]
+                for q in range(len(ob['starts'])):
+                    st_k = z3.If(pars[k] == q, ob['starts'][q], st_k)
+                firstpos = BV(k)
+                for b in range(k - 1, -1, -1):
+                    firstpos = z3.If(pars[b] == pars[k], BV(b), firstpos)
+                obls.append(('starts of the group of element %d is where that group begins in what is handed over' % k, G(st_k != firstpos)))
+        obls.append(('the reduction below is asked one level further down', G(ob['negaxis'] != 1)))
+        obls.append(('keepdims is not handed on', G(ob['keepdims'] != 0)))
+        if positions:
+            if len(ob['shifts']) != hl:
+                obls.append(('one shift per handed element for position reducers', g_))
+            else:
+                for k in range(hl):
+                    # number of lists of the same outer group, before list i, that do not reach position j
+                    want = BV(0)
+                    for i in range(n):
+                        for j in range(lens[i]):
+                            cnt = sum(1 for i2 in range(i) if parents[i2] == parents[i] and lens[i2] <= j)
+                            want = z3.If(atoms[k] == offs[i] + j, BV(cnt), want)
+                    obls.append(('shift of handed element %d = earlier lists of its group too short for its position' % k, G(ob['shifts'][k] != want)))
+        else:
+            obls.append(('no shifts for reducers that do not return positions', G(z3.BoolVal(len(ob['shifts']) != 0))))
+    # the answer: per outer group the results of its position groups, in position order
+    for g_, res in nodeh.decode_cases(nc, out.mem, nc.m.cell('ret', 0)):
+        if res is None:
+            obls.append(('a result is returned', z3.And(g_, z3.Not(out.raised)))); continue
+        val = value(res)
+        if len(val) != outlength:
+            obls.append(('one result list per outer group', g_)); continue
+        for ob in seen:
+            pars, info = ob['parents'], ob['info']
+            hl = len(pars)
+            atoms = [z3.simplify(z3.Select(info['atoms'], BV(k))) for k in range(hl)]
+            for g in range(outlength):
+                if len(val[g]) != maxlen[g]:
+                    obls.append(('outer group %d has one result per position of its longest list (%d, not %d)' % (g, maxlen[g], len(val[g])), z3.And(g_, ob['pc'])))
+                    continue
+                for j in range(maxlen[g]):
+                    # the group number of (g, j): read off any handed element with that key
+                    wit = [i for i in range(n) if parents[i] == g and lens[i] > j][0]
+                    idt = BV(-1)
+                    for k in range(hl):
+                        idt = z3.If(atoms[k] == offs[wit] + j, pars[k], idt)
+                    obls.append(('result %d of outer group %d is the reduction of its position-%d elements' % (j, g, j), z3.And(g_, ob['pc'], val[g][j].val != RED(idt))))
+
+    def replay(model, ent):
+        ov = offsets_values(model, offs)
+        lc = max(model.eval(nc.lencontent, model_completion=True).as_signed_long(), ov[-1])
+        if lc > 200:
+            return False, 'content too long to replay', dict(offsets=ov)
+        # outer list structure from the parents: group g holds the lists with parents == g (consecutive)
+        counts = [sum(1 for p in parents if p == g) for g in range(outlength)]
+        oo, acc = [0], 0
+        for c in counts:
+            acc += c; oo.append(acc)
+        vals = [7 * v % 11 for v in range(lc)]
+        inner = [vals[ov[i]:ov[i + 1]] for i in range(n)]
+        nested = [inner[oo[g]:oo[g + 1]] for g in range(outlength)]
+        head = 'i64 %s listoffset64 %s listoffset64 %s ' % (fullnative.ints(vals), fullnative.ints(ov), fullnative.ints(oo))
+        import itertools as _it
+        if positions:
+            def ref(group):
+                out_ = []
+                for col in _it.zip_longest(*group):
+                    present = [(x, i) for i, x in enumerate(col) if x is not None]
+                    best = max(x for x, i in present)
+                    out_.append([i for x, i in present if x == best][0])
+                return out_
+            return akrun_check(head + 'reduce argmax 1 0 0', [ref(gp) for gp in nested], 'argmax(axis=1) of %s' % nested)
+        ref = lambda group: [sum(x for x in col if x is not None) for col in _it.zip_longest(*group)]
+        return akrun_check(head + 'reduce sum 1 0 0', [ref(gp) for gp in nested], 'sum(axis=1) of %s' % nested)
+    return mdischarge(nc.m, 'ListOffsetArray64::reduce_next non-local lens=%s parents=%s%s' % (','.join(map(str, lens)), ','.join(map(str, parents)), ' positions' if positions else ''), obls,
+                      [('non-zero offset origin', offs[0] > 0)], replay=replay, prefer=[offs[0] <= 3, nc.lencontent <= offs[-1] + 2],
+                      extra=dict(bounds='list lengths %s and outer groups %s concrete (case split); offsets origin symbolic; opaque leaf content' % (lens, parents)))
+
+
+def jobs_reduce_nonlocal(tier):
+    q = [((2, 1), (0, 0)), ((1, 2, 1), (0, 0, 1)), ((0, 2), (0, 0)), ((2, 0, 3), (0, 1, 1)), ((0, 1, 1), (0, 0, 1)), ((0, 2, 1, 2), (0, 0, 1, 1))]
+    if tier != 'quick':
+        q += [((1, 1, 1), (0, 0, 0)), ((3, 1, 2), (0, 0, 0)), ((2, 2), (0, 2)), ((1,), (0,)), ((0, 0), (0, 0))]
+    return [(h_reduce_nonlocal, (l, p, pos), 1800) for l, p in q for pos in (False, True)]
